@@ -87,6 +87,31 @@ theorem rangeLoop_search_res {step : Env → Nat → Val → Res} {vs : List Val
   subst hs
   exact rangeLoop_search step P hit r hstep vs i env hP
 
+@[simp] theorem fxOf_logFx (env : Env) (v : Val) : fxOf (logFx env v) = fxOf env ++ [v] := by
+  simp [fxOf, logFx]
+
+theorem fxOf_set_other (env : Env) (x : String) (v : Val) (h : "$fx" ≠ x) : fxOf (env.set x v) = fxOf env := by
+  simp [fxOf, Env.get_set_other env x "$fx" v h]
+
+theorem get_logFx_other (env : Env) (y : String) (v : Val) (h : y ≠ "$fx") : (logFx env v).get y = env.get y := by
+  simp [logFx, Env.get_set_other _ _ _ _ h]
+
+/-- A loop whose every iteration runs to completion, appends `f x` to the effect log and preserves `P`: the loop
+    runs to completion, appends the concatenation, and preserves `P`. -/
+theorem rangeLoop_fx (step : Env → Nat → Val → Res) (P : Env → Prop) (f : Val → List Val) (xs : List Val)
+    (hstep : ∀ en i x, x ∈ xs → P en → ∃ en', step en i x = .normal en' ∧ fxOf en' = fxOf en ++ f x ∧ P en') :
+    ∀ (i : Nat) (env : Env), P env →
+      ∃ env', rangeLoop step i (Val.ofList xs) env = .normal env' ∧ fxOf env' = fxOf env ++ xs.flatMap f ∧ P env' := by
+  induction xs with
+  | nil => intro i env hP; exact ⟨env, by simp [Val.ofList, rangeLoop], by simp, hP⟩
+  | cons x xs ih =>
+    intro i env hP
+    obtain ⟨e1, h1, hf1, hP1⟩ := hstep env i x (by simp) hP
+    obtain ⟨e2, h2, hf2, hP2⟩ := ih (fun en i y hy => hstep en i y (by simp [hy])) (i + 1) e1 hP1
+    refine ⟨e2, ?_, ?_, hP2⟩
+    · simp [Val.ofList, rangeLoop, h1, h2]
+    · simp [hf2, hf1, List.append_assoc]
+
 /-- `mgsimp [extra lemmas]`: symbolic evaluation of a MiniGo run by `simp` with the interpreter's equations. -/
 syntax "mgsimp" ("[" Lean.Parser.Tactic.simpLemma,* "]")? : tactic
 macro_rules
